@@ -80,4 +80,13 @@ KeyBroken(g, k, o) ==
       refs == RefsOf(DOMAIN g, g[k])
   IN Cl2("Deps", o.deps = refs) \cup Cl2("Get", o.get = want) \cup Cl2("Exec", o.exec = want)
      \cup Cl2("Call", o.call = want) \cup Cl2("PickleDeps", o.pdeps = refs) \cup Cl2("PickleCall", o.pcall = want)
+
+(* ---- C11: equal nodes compute equal values.
+   The implementation's verdict on two nodes x, y is recorded: eq (x == y) and teq
+   (tokenize(x) == tokenize(y)).  Two nodes are *semantically the same* when they
+   evaluate to the same value under every environment of the (finite) family envs;
+   the family always contains a Herbrand environment that gives every key its own
+   opaque value, so differing anywhere means differing there.                      *)
+SameOn(keys, envs, x, y) == \A i \in DOMAIN envs : EvalWith(keys, envs[i], x) = EvalWith(keys, envs[i], y)
+Sound(eq, teq, same)     == (eq \/ teq) => same
 =============================================================================
